@@ -11,6 +11,7 @@ from fractions import Fraction
 
 import usersemirings as us
 from common import MachineryError
+from project import OutOfModelRange
 from project import cfg_proj, enc_w, seq, tname, chart_proj, Namer, cfg_digest
 from genlm.grammar.cfg import CFG
 from genlm.grammar.cfglm import EOS, add_EOS, locally_normalize, BoolCFGLM
@@ -420,6 +421,12 @@ def f_mask(a):
 
 def f_addeos(a):
     g = build(a["G"], a["sr"], a.get("names", "str"), a.get("pre"), a.get("late", 0))
+    if a.get("eos2") is not None:
+        # wrapped twice, with two different end symbols: the inner wrap is judged as the INPUT of the outer one
+        inner = add_EOS(g, eos=unt(a["eos"]))
+        Gin, _ = cfg_proj(inner)
+        out, _ = cfg_proj(add_EOS(inner, eos=unt(a["eos2"])))
+        return {"op": "addeos", "sr": srmodel(a["sr"]), "in": Gin, "out": out, "sigma": Gin["V"], "eos": a["eos2"], "L": a["L"]}
     if a.get("eos") is not None:               # a caller-chosen end-of-sequence symbol
         out, _ = cfg_proj(add_EOS(g, eos=unt(a["eos"])))
     else:
@@ -630,6 +637,8 @@ def event(fn, args, site=None, feat=None, timeout=30):
         except CallTimeout:
             # a slow machine must not look like a hanging library: one more attempt with four times the budget
             e = guarded(lambda: FUNCS[fn](args), 4 * timeout)
+    except OutOfModelRange:
+        e = {"op": fn, "skip": "numeric-range"}      # (a weight beyond the model's number range: counted, not judged)
     except MachineryError:
         raise
     except CallTimeout:
